@@ -628,7 +628,7 @@ pub mod fastq {
         &&& self.position.byte == self.gpos()
         &&& match self.state {
                 State::New => self.base() == 0 && self.buf_pos.pos.0 == 0 && self.incomplete_pos is None,
-                State::Parsing => self.filled() && self.incomplete_pos is None && self.buf_pos.valid(self.b()),
+                State::Parsing => self.filled() && self.incomplete_pos is None && self.buf_pos.valid(self.b()) && self.buf_pos.pos.1 < self.b().len(),
                 State::Positioned => self.filled() && self.buf_pos.pos.0 <= self.b().len()
                     && (self.incomplete_pos matches Some(k) ==> stuck(self.b(), self.buf_pos, rp(k))),
                 State::Finished => true,
@@ -674,7 +674,9 @@ pub mod fastq {
                 && group_complete(final(self).f(), final(self).gpos()) && vok(final(self).f(), final(self).gpos())
                 && final(self).base() + final(self).buf_pos.pos.1 == c4(final(self).f(), final(self).gpos())
                 && final(self).buf_reader.errs() == old(self).buf_reader.errs()
-                && (final(self).state == old(self).state || (final(self).state == State::Finished && c4(final(self).f(), final(self).gpos()) == final(self).f().len())),
+                && ((final(self).state == old(self).state && final(self).incomplete_pos is None && final(self).buf_pos.pos.1 < final(self).b().len())
+                    || (final(self).state == State::Finished && c4(final(self).f(), final(self).gpos()) == final(self).f().len()
+                        && final(self).base() + final(self).b().len() == final(self).f().len())),
             [C02,C03|fastq.resume.end] r matches Ok(false) ==> end_ok(final(self).f(), final(self).gpos()) && final(self).state == State::Finished
                 && final(self).buf_reader.errs() == old(self).buf_reader.errs(),
             [C02,C14,C17,C09|fastq.resume.err] r matches Err(e) ==> match e {
@@ -725,6 +727,90 @@ pub mod fastq {
                 if c4(bb, s) < bb.len() { lemma_group_lift(ff, a, bb, s); }
             }
 //@end
+
+//@fn fastq::Reader::next ret=r tags=C02,C03,C05,C06,C14,C17
+//@spec
+        requires
+            old(self).wf(),
+        ensures
+            [C06|fastq.next.wf] final(self).wf() && final(self).f() == old(self).f(),
+            [C02,C06|fastq.next.end] r is None ==> final(self).buf_reader.errs() == old(self).buf_reader.errs() && final(self).state == State::Finished
+                && (old(self).state == State::Finished || old(self).poisoned() || end_ok(old(self).f(), old(self).cursor())),
+            [C02,C03,C06,C12|fastq.next.record] r matches Some(Ok(rec)) ==> final(self).buf_reader.errs() == old(self).buf_reader.errs()
+                && old(self).state != State::Finished
+                && rec.buffer@ == final(self).b() && *rec.buf_pos == final(self).buf_pos && rec.buf_pos.valid(rec.buffer@)
+                && (!old(self).poisoned() ==> ({
+                    let (ff, p) = (old(self).f(), old(self).cursor());
+                    &&& group_complete(ff, p) && vok(ff, p)
+                    &&& rec.head_v() == g_head(ff, p) && rec.seq_v() == g_seq(ff, p) && rec.qual_v() == g_qual(ff, p)
+                    &&& final(self).gpos() == p
+                    &&& final(self).base() + final(self).buf_pos.pos.1 == c4(ff, p)
+                    &&& (final(self).state == State::Parsing || (final(self).state == State::Finished && c4(ff, p) == ff.len()))
+                })),
+            [C05,C03|fastq.next.position] r matches Some(Ok(rec)) && !old(self).poisoned() ==>
+                final(self).position.byte == old(self).cursor() && final(self).position.line == true_line(old(self).f(), old(self).cursor()),
+            [C02,C14,C17,C06|fastq.next.error] r matches Some(Err(e)) ==>
+                (final(self).state == State::Finished || (old(self).state == State::New && final(self).state == State::New && e is Io))
+                && match e {
+                    Error::Io(x) => final(self).buf_reader.errs() == old(self).buf_reader.errs().push(x),
+                    Error::BufferLimit => final(self).buf_reader.errs() == old(self).buf_reader.errs(),
+                    _ => final(self).buf_reader.errs() == old(self).buf_reader.errs() && old(self).state != State::Finished
+                         && (!old(self).poisoned() ==> fmt_err(e, old(self).f(), old(self).cursor(), true_line(old(self).f(), old(self).cursor()))),
+                },
+//@body_start
+        proof {
+            lemma_count_lf_mono(self.f(), 0, self.position.byte as int);
+            if self.state == State::Parsing {
+                lemma_group_lift(self.f(), self.base(), self.b(), self.buf_pos.pos.0 as int);
+                lemma_group_lines(self.f(), self.gpos());
+                lemma_count_lf_mono(self.f(), 0, self.base() + self.buf_pos.pos.1 + 1);
+            }
+        }
+//@before /if self\.incomplete_pos\.is_none\(\)/
+        proof {
+            let (ff, a, bb, s) = (self.f(), self.base(), self.b(), self.buf_pos.pos.0 as int);
+            lemma_chain_bounds(bb, s);
+            if bb.len() > 0 && c4(bb, s) < bb.len() { lemma_group_lift(ff, a, bb, s); }
+        }
+//@before /Some\(Ok\(RefRecord \{/
+        proof {
+            let (ff, a, bb, s) = (self.f(), self.base(), self.b(), self.buf_pos.pos.0 as int);
+            lemma_chain_bounds(bb, s);
+            lemma_nl_bounds(bb, s);
+            lemma_group_lift(ff, a, bb, s);
+        }
+//@end
+
+//@fn fastq::Reader::position ret=r tags=C05
+//@spec
+        ensures
+            [C05|fastq.position.is_field] *r == self.position,
+//@end
+}
+
+//@impl_open fastq::Position::new
+//@fn fastq::Position::new ret=r tags=C05
+//@spec
+        ensures
+            [C05|fastq.Position.new] r.line == line && r.byte == byte,
+//@end
+//@fn fastq::Position::line ret=r tags=C05
+//@spec
+        ensures
+            [C05|fastq.Position.line] r == self.line,
+//@end
+//@fn fastq::Position::byte ret=r tags=C05
+//@spec
+        ensures
+            [C05|fastq.Position.byte] r == self.byte,
+//@end
+}
+
+impl<'a> RefRecord<'a> {
+    spec fn rwf(&self) -> bool { self.buf_pos.valid(self.buffer@) }
+    spec fn head_v(&self) -> Seq<u8> { g_head(self.buffer@, self.buf_pos.pos.0 as int) }
+    spec fn seq_v(&self) -> Seq<u8> { g_seq(self.buffer@, self.buf_pos.pos.0 as int) }
+    spec fn qual_v(&self) -> Seq<u8> { g_qual(self.buffer@, self.buf_pos.pos.0 as int) }
 }
 
     } // verus!
